@@ -48,6 +48,17 @@ pub struct WorldCfg {
     /// 65535 bigram rows (65536 ids incl. BOS/EOS; now and then one fewer), or the 65535 ids that
     /// the 16-bit header of matrix.def allows; the other side stays small (0 = never).
     pub extreme_ids_one_in: u64,
+    /// One world in `one_id_side_one_in` has a side with the BOS/EOS id only (matrix.def "N 1",
+    /// an empty bigram.left, ...): every word carries id 0 there and the only valid mapping list
+    /// for that side is the empty one (0 = never).
+    pub one_id_side_one_in: u64,
+    /// One world in `threshold_sizes_one_in` has sizes around the thresholds of length encodings:
+    /// 250..=257 homographs of one surface (more than 251 lexicon entries), a feature of
+    /// 250..=252 bytes (0 = never).
+    pub threshold_sizes_one_in: u64,
+    /// One lexicon feature in `multiline_feature_one_in` contains a quoted field with a line break
+    /// (0 = never; only for scenarios that never split these files into lines themselves).
+    pub multiline_feature_one_in: u64,
 }
 
 impl Default for WorldCfg {
@@ -62,6 +73,9 @@ impl Default for WorldCfg {
             big_costs_one_in: 0,
             huge_dim_one_in: 0,
             extreme_ids_one_in: 0,
+            one_id_side_one_in: 0,
+            threshold_sizes_one_in: 0,
+            multiline_feature_one_in: 0,
         }
     }
 }
@@ -214,6 +228,11 @@ pub fn gen_char_def(rng: &mut Rng, want_space: Option<bool>) -> (String, Vec<Str
     if rng.chance(1, 3) {
         rng.shuffle(&mut lines);
     }
+    // a later line that hands a span back to DEFAULT alone (it overrides earlier lines there)
+    if rng.chance(1, 8) {
+        let (lo, hi) = *rng.pick(spans);
+        lines.push(format!("0x{lo:04X}..0x{hi:04X} DEFAULT"));
+    }
     for l in lines {
         out.push_str(&l);
         out.push('\n');
@@ -339,7 +358,15 @@ pub struct BigramModel {
 pub fn gen_bigram(rng: &mut Rng, k: usize, num_right: usize, num_left: usize, big: bool) -> BigramModel {
     // ordinary costs stay within [-300, 300]: every partial sum fits 16 bits
     let cost_at = |rng: &mut Rng, p: usize| -> i64 {
-        if big {
+        if big && rng.chance(1, 12) {
+            // a single entry outside the 16-bit range
+            let m = rng.range(32768, 120_000);
+            if rng.chance(1, 2) {
+                m
+            } else {
+                -m
+            }
+        } else if big {
             let m = rng.range(5000, 16000);
             if ((p / 8) % 2 == 0) != rng.chance(1, 6) {
                 m
@@ -466,6 +493,13 @@ pub fn gen_world(rng: &mut Rng, plan: &mut Plan, cfg: &WorldCfg) -> WorldInfo {
         } else {
             (big, small)
         }
+    } else if cfg.one_id_side_one_in > 0 && r.chance(1, cfg.one_id_side_one_in) {
+        let other = 2 + r.usize(cfg.max_dim - 1); // (both sides empty is rejected: nothing to connect)
+        if r.chance(1, 2) {
+            (1, other)
+        } else {
+            (other, 1)
+        }
     } else if cfg.huge_dim_one_in > 0 && r.chance(1, cfg.huge_dim_one_in) {
         (182 + r.usize(119), 182 + r.usize(119))
     } else if cfg.big_dim_one_in > 0 && r.chance(1, cfg.big_dim_one_in) {
@@ -477,6 +511,31 @@ pub fn gen_world(rng: &mut Rng, plan: &mut Plan, cfg: &WorldCfg) -> WorldInfo {
     let unk_def = gen_unk_def(&mut rng.fork(), &cats, num_left, num_right);
     let n_lex = 3 + r.usize(cfg.max_lex - 2);
     let (mut rows, mut surfaces) = gen_lex_rows(&mut rng.fork(), n_lex, num_left, num_right, "W", &[]);
+    if cfg.threshold_sizes_one_in > 0 && r.chance(1, cfg.threshold_sizes_one_in) {
+        let surface = surfaces[0].clone();
+        let n = *r.pick(&[250usize, 251, 252, 254, 255, 256, 257]);
+        for i in 0..n {
+            rows.push(format!(
+                "{},{},{},{},H{i}",
+                csv_quote(&surface),
+                r.usize(num_left),
+                r.usize(num_right),
+                r.range(-50, 50)
+            ));
+        }
+        let len = *r.pick(&[250usize, 251, 252]);
+        rows.push(format!("長い,{},{},0,{}", r.usize(num_left), r.usize(num_right), "f".repeat(len)));
+        surfaces.push("長い".into());
+        plan.set_param("threshold_sizes", n as i64);
+    }
+    if cfg.multiline_feature_one_in > 0 {
+        for row in rows.iter_mut() {
+            if r.chance(1, cfg.multiline_feature_one_in) {
+                row.push_str(",\"two\nlines\"");
+                plan.set_param("multiline_feature", 1);
+            }
+        }
+    }
     if extreme {
         // words that carry the largest ids of both sides
         for (i, s) in ["極", "極a"].iter().enumerate() {
